@@ -303,7 +303,7 @@ func genWirePlan(t *rapid.T) *wplan {
 			kinds = append(kinds, k)
 		}
 	}
-	nc := rapid.IntRange(1, 3).Draw(t, "clients")
+	nc := rapid.SampledFrom([]int{1, 2, 2, 2, 3, 3, 3}).Draw(t, "clients")
 	for i := 0; i < nc; i++ {
 		c := wclientPlan{Kind: rapid.SampledFrom(kinds).Draw(t, "kind"), DetachAt: -1}
 		switch rapid.IntRange(0, 3).Draw(t, "attachWhere") {
@@ -737,10 +737,7 @@ func (c *wclient) poll() {
 					if c.problem == "" {
 						c.problem = fe.Error()
 					}
-					if fe.Truncated || !c.rc.IsWS() {
-						return // a byte stream cannot be re-synchronised
-					}
-					continue
+					return // the strict reader stays at the offending item; the judge reports it
 				}
 				if !errors.Is(err, rtspc.ErrTimeout) {
 					c.mu.Lock()
@@ -1002,6 +999,9 @@ func runWire(t evid.TB, pl *wplan, audience bool) *wresult {
 	sentinelKey := l.key(0, sentinel.Data)
 	var sentinelNAL []byte = l.units[l.sentinelUnit].Bytes
 	seen := func(c *wclient) bool {
+		if c.problem != "" {
+			return true // framing trouble: nothing more can be read, the judge reports it
+		}
 		if c.flvKind() {
 			// a complete tag (its PreviousTagSize included) must hold it: the judge reads complete tags only
 			body := c.flvBytes()
